@@ -189,7 +189,7 @@ def _generator(repo):
     s0, s1 = comp(sh.elts[0], 0), comp(sh.elts[1], 1)
     if s0 != s1: raise Refuse('zernike_coordinates: the two shift components are built differently')
     src = ast.unparse(ZC).replace(' ', '')
-    for needle in ('rr,cc=lentil.helper.mesh(mask.shape,shift)', 'rho=r/np.max(r*mask)', 'r=np.abs(rr+1j*cc)'):
+    for needle in ('rr,cc=lentil.helper.mesh(mask.shape,shift)', 'rho=r/np.max(r*mask)'):
         if needle not in src.replace('(rr,cc)', 'rr,cc'): raise Refuse('zernike_coordinates: statement changed: ' + needle)
     # ---- zernike_coordinates: `angle = …` (real expression in rotate, np.pi) and `theta = np.angle(<complex expression>)` TRANSLATED:
     # the complex argument is split symbolically into real and imaginary part over rr, cc, ca = cos(angle), sa = sin(angle)
@@ -230,6 +230,13 @@ def _generator(repo):
         raise Refuse('zernike_coordinates: theta is not np.angle(<expression>)')
     th_re, th_im = cx(th.args[0])
     if th_re is None or th_im is None: raise Refuse('zernike_coordinates: theta argument has a vanishing real or imaginary part')
+    # `r = np.abs(<complex expression in rr, cc>)`: real and imaginary part of the argument, translated with the same splitter
+    rv = zasg.get('r')
+    if not (isinstance(rv, ast.Call) and ast.unparse(rv.func) == 'np.abs' and len(rv.args) == 1 and not rv.keywords):
+        raise Refuse('zernike_coordinates: r is not np.abs(<expression>)')
+    r_re, r_im = cx(rv.args[0])
+    if r_re is None or r_im is None or any(t in r_re + r_im for t in ('ca', 'sa')):
+        raise Refuse('zernike_coordinates: the argument of np.abs is not a complex combination of rr and cc with both parts present')
     # ---- zernike_index: row search argument, k, r, sign, row seeds, loop count, append step, final product
     ZI = _fn(mod, 'zernike_index')
     ib = [x for x in ZI.body if not (isinstance(x, ast.Expr) and isinstance(x.value, ast.Constant))]
@@ -307,6 +314,8 @@ def _generator(repo):
             f'def zShiftAxis {{K : Type}} [Sub K] [Add K] [IntCast K] (c : K) (n : Int) : K := {s0}\n\n'
             '/-- `zernike_coordinates`: `angle` (radians) from `rotate` (degrees); `pi` = np.pi -/\n'
             f'def zAngle {{K : Type}} [Add K] [Sub K] [Mul K] [Div K] [Neg K] [NatCast K] (rotate pi : K) : K := {angle_l}\n\n'
+            '/-- `zernike_coordinates`: (real part, imaginary part) of the argument of `np.abs` in `r = …` (the radius is the modulus) -/\n'
+            f'def zRadArg {{K : Type}} [Add K] [Sub K] [Mul K] [Neg K] (rr cc : K) : K × K := ({r_re}, {r_im})\n\n'
             '/-- `zernike_coordinates`: (real part, imaginary part) of the argument of `np.angle` in `theta = …`; `ca`, `sa` = cos and sin of `angle`\n'
             '(`np.exp(1j*angle)`), complex products expanded symbolically -/\n'
             f'def zThetaArg {{K : Type}} [Add K] [Sub K] [Mul K] [Neg K] (rr cc ca sa : K) : K × K := ({th_re}, {th_im})\n\n'
@@ -333,6 +342,6 @@ def _generator(repo):
     return lean, ['R: guard, term count, coefficient numerator/denominator and exponent translated; zernike: decision tree and leaf products translated',
                   'zernike: `m, n = zernike_index(index)`, bool cast of the mask and the unprocessed return checked structurally; the coordinate-source block (rho/theta None) translated; the body consists of exactly: cast, that block, index call, tree, return',
                   'zernike_index: row-search argument, k, r, sign rule, row seeds, loop count and append step translated; guard j < 1, n == 0 branch, m = row_m[r]*sign matched',
-                  'zernike_coordinates: bool cast of the mask matched as first statement; centre index and default shift translated; angle (degrees -> radians) and the complex argument of theta = np.angle(…) translated (split into real and imaginary part); mesh call, r and rho statements matched']
+                  'zernike_coordinates: bool cast of the mask matched as first statement; centre index and default shift translated; angle (degrees -> radians) and the complex argument of theta = np.angle(…) translated (split into real and imaginary part); the complex argument of r = np.abs(…) translated; mesh call and rho statement matched']
 
 MODULES = [{'name': 'ZernikeR', 'src': 'lentil/zernike.py', 'generator': _generator, 'props': ['C11', 'C12']}]
